@@ -80,7 +80,15 @@ fn read_event(rng: &mut Rng) -> Value {
     if natural < 6 { forms.push(digs(y, natural + 1)); }
     if (1950..=2049).contains(&y) { forms.push(digs(y % 100, 2)); forms.push(digs(y % 100, 2)); }
     if (1900..=2899).contains(&y) { forms.push(digs(y - 1900, 3)); forms.push(digs(y - 1900, 3)); }
-    let yt = rng.pick(&forms).clone();
+    let mut yt = rng.pick(&forms).clone();
+    // a year of more than six digits denotes no representable date; among them the decimal aliases of y modulo 2^32 / 2^63 / 2^64 (a reader
+    // that accumulates digits in a wrapping or narrower integer reads them as y)
+    if rng.chance(1, 30) {
+        let a: u128 = *rng.pick(&[y as u128 + (1u128 << 64), y as u128 + (2u128 << 64), y as u128 + (1u128 << 63), y as u128 + (1u128 << 32), y as u128 + (1u128 << 31) * 10,
+                                  10_000_000 + y as u128, 1u128 << 64, (1u128 << 64) - 1, 99_999_999_999_999_999_999, y as u128 + (1u128 << 96), y as u128 * 10_000_000]);
+        let t = a.to_string();
+        if t.len() > 6 { yt = t.bytes().map(|b| b - b'0').collect(); }
+    }
     let mo = rng.range(1, 12);
     let r = rng.range(1, dim(y, mo));
     let d = *rng.pick(&[1i64, 9, 10, dim(y, mo), r]);
@@ -121,7 +129,7 @@ fn read_event(rng: &mut Rng) -> Value {
     t.push_str(&cm);
     let f = json!({"wd": wd, "d": d, "mo": mo, "yt": yt, "h": h, "mi": mi, "s": s, "zone": cps(&zone)});
     let c = json!({"wkd": wkd, "dpad": dpad, "secs": secs, "ncase": ncase, "ws": ws.iter().map(|w| cps(w)).collect::<Vec<_>>(), "cm": cps(&cm)});
-    ev("parse2822", json!({"s": cps(&t), "f": f, "c": c}), || match DateTime::parse_from_rfc2822(&t) {
+    ev(if yt.len() > 6 { "parse2822_bigyear" } else { "parse2822" }, json!({"s": cps(&t), "f": f, "c": c}), || match DateTime::parse_from_rfc2822(&t) {
         Ok(b) => json!({"r": {"ok": proj_dt(&b)}}),
         Err(e) => json!({"r": {"err": format!("{:?}", e.kind())}}),
     })
@@ -171,6 +179,9 @@ pub fn run(ctx: &Ctx) -> Value {
     if !ctx.quick() {
         for d in dates.iter().step_by(5) { for t in times.iter().step_by(3) { for &off in &all { emit_local(&mut tw, &d.and_time(*t), off, off % 11 == 0); } } }
     }
+    // digit-pair witnesses, and a sequence in which consecutive values share a component (one-entry memos inside the writer)
+    for (i, v) in crate::proj::pair_witnesses().iter().enumerate() { emit_local(&mut tw, v, lattice[i % lattice.len()], i % 3 == 0); }
+    for (i, d) in crate::proj::memo_sequence().into_iter().enumerate() { emit_local(&mut tw, &d.and_time(times[i % 2]), 0, i % 2 == 0); }
     for _ in 0..ctx.t(500, 30_000) {
         let d = mk(|| NaiveDate::from_ymd_opt(rng.range(0, 9999) as i32, rng.range(1, 12) as u32, rng.range(1, 28) as u32));
         let secs = rng.range(0, 86_399) as u32;
